@@ -96,7 +96,7 @@ def diagnose(W):
         return 'task-read-but-not-announced-by-signalled-worker'
     for pid, residue in W.wire_out.items():
         w = W.workers.get(pid)
-        if residue and w is not None and w['proc'].dead and w.get('term_in_write'):
+        if residue and w is not None and w.get('term_in_write'):
             # the worker was unwound by a termination signal (shrink(), operator) in the middle of writing a
             # message: the parent reads the rest of the stream from a wrong offset
             return TRUNCATED
@@ -670,6 +670,18 @@ def judge_C05(W, ex):
     kills = [e for e in k.log if e[2] in ('kill', 'killpg')]
     if any(e[2] == 'killpg' for e in kills):
         k.probe('killpg_branch')
+    # signals the scanner sent while enforcing the hard limit of a given job: jobid -> [(step, pid)]
+    hard_kills = {}
+    cur = None
+    for e in k.log:
+        if 'TimeoutHandler' not in e[1]:
+            continue
+        if e[2] == 'hard-intent':
+            cur = e[3]
+        elif e[2] == 'soft-intent' or (e[2] == 'sleep' and e[3] == 1.0):
+            cur = None
+        elif e[2] in ('kill', 'killpg') and cur is not None and e[4] in (15, 9):
+            hard_kills.setdefault(cur, []).append((e[0], e[3]))
     nlimited = 0
     for uid, rec in W.jobs.items():
         if rec.kind != 'apply' or not rec.returned_handle:
@@ -708,6 +720,15 @@ def judge_C05(W, ex):
                     bad('C05.b', 'worker-lingered', 'job %r: pid %d died %.2fs after the job was failed'
                         % (uid, pid, p.death_time - rec.first[1]))
         else:
+            # a job that resolved otherwise is never timed out: no hard-limit callback, no worker killed for it
+            tos = [c for c in rec.cbs if c[2] == 'to' and c[3][1] is not None and not c[3][1].get('soft')]
+            if tos:
+                bad('C05.n', 'timeout-callback-for-finished-job', 'job %r resolved (%s) and its timeout callback was '
+                    'called with %r' % (uid, tname or 'success', tos[0][3][1]))
+            acted = hard_kills.get(rec.jobid)
+            if acted:
+                bad('C05.n', 'worker-killed-for-finished-job', 'job %r resolved (%s); the scanner then signalled '
+                    'pid %r on its behalf at step %d' % (uid, tname or 'success', acted[0][1], acted[0][0]))
             # a job that ran longer than its limit (+ one scan) must not have been left alone
             if lim is not None and acc_t is not None and rec.first and pc.get('threads', True):
                 el = rec.first[1] - acc_t
@@ -726,7 +747,18 @@ def judge_C06(W, ex):
         return
     # SIGUSR1 sent by the pool: (step, time, pid)
     usr1 = [(e[0], e[3]) for e in k.log if e[2] == 'kill' and e[4] == 10 and 'TimeoutHandler' in e[1]]
-    scans = [e for e in k.log if e[2] == 'sleep' and 'TimeoutHandler' in e[1]]
+    # (the scanner's own sleep between two scans lasts 1.0 s; a slow user callback run by that thread sleeps too)
+    scans = [e for e in k.log if e[2] == 'sleep' and 'TimeoutHandler' in e[1] and e[3] == 1.0]
+    intent = {}
+    cur = None
+    for e in k.log:
+        if e[2] == 'soft-intent':
+            cur = e[3]
+        elif e[2] == 'hard-intent':
+            cur = None
+        elif e[2] == 'kill' and e[4] == 10 and 'TimeoutHandler' in e[1] and cur is not None:
+            intent.setdefault(cur, []).append(e[0])
+            cur = None
     for uid, rec in W.jobs.items():
         if rec.kind != 'apply' or not rec.returned_handle:
             continue
@@ -741,12 +773,10 @@ def judge_C06(W, ex):
         last = d['end'] if d['end'] is not None else k.steps
         owners = owners_info(W, rec)
         ack_step = min([e[1] for ents in owners.values() for e in ents] or [d['begin']])
-        mine = [s for (s, p) in usr1 if p == pid and ack_step <= s and (rec.first is None or s <= rec.first[0] + 50)
-                and s <= last + 200]
-        # restrict to signals sent while this job owned the worker: between its accept and the next accept
-        nxt = [m[0] for m in W.msgs_out.get(pid, ()) if m[2] == ACK and m[0] > ack_step]
-        upper = min(nxt) if nxt else k.steps + 1
-        mine = [s for (s, p) in usr1 if p == pid and ack_step <= s < upper]
+        # the signals the scanner sent on behalf of THIS job (it names the job when it decides; the signal goes
+        # to the worker recorded for the job, which may have moved on to another job if this job's result is
+        # still waiting to be read - that is the asynchrony the property allows, not a second job's signal)
+        mine = intent.get(rec.jobid, [])
         tos = [c for c in rec.cbs if c[2] == 'to' and c[3][1] and c[3][1].get('soft')]
         if soft is None:
             if mine:
@@ -772,9 +802,14 @@ def judge_C06(W, ex):
                 k.probe('soft_signal_after_program_end')
         # a scan inside [accept+soft, accept+hard) while still running => exactly one signal, surfaced in the task
         acc_t = res._time_accepted if isinstance(res._time_accepted, (int, float)) else None
-        if acc_t is not None:
+        seen = [c[1] for c in rec.cbs if c[2] == 'acc']     # when the parent consumed the accept message
+        if acc_t is not None and seen:
             end_t = rec.first[1] if rec.first else k.now
-            in_window = [e for e in scans if acc_t + soft <= e[4] - 1e-9 and e[4] < min(end_t, acc_t + (hard or 1e9)) - 0.2]
+            wp = W.workers[pid]['proc'] if pid in W.workers else None
+            gone = min(d['end'] if d['end'] is not None else k.steps + 1,
+                       wp.death_step if wp is not None and wp.dead else k.steps + 1)
+            in_window = [e for e in scans if acc_t + soft <= e[4] - 1e-9 and seen[0] < e[4] and e[0] < gone and
+                         e[4] < min(end_t, acc_t + (hard or 1e9)) - 0.2]
             if in_window and not mine and pc.get('threads', True):
                 bad('C06.d', 'soft-limit-not-delivered', 'job %r ran past its soft limit (%.2fs) across %d scans, no signal'
                     % (uid, soft, len(in_window)))
@@ -783,7 +818,10 @@ def judge_C06(W, ex):
             if d['end'] is not None and mine[0] < d['end'] - 3 and not surfaced and d['exc'] is None:
                 bad('C06.d', 'soft-limit-not-raised-in-task', 'job %r: signal sent at step %d, program ended at %d without '
                     'seeing SoftTimeLimitExceeded' % (uid, mine[0], d['end']))
-            if any(e[2] == 'soft-caught' and e[3] == uid for e in k.log):
+            # signals that landed in this job's execution but were sent on behalf of another job (whose result
+            # was still unread when the scanner looked): the property allows those
+            stray = [s for (s, p) in usr1 if p == pid and d['begin'] <= s <= last and s not in mine]
+            if any(e[2] == 'soft-caught' and e[3] == uid for e in k.log) and not stray:
                 k.probe('soft_limit_caught')
                 if res.ready() and not (res._success and res._value == ('v', uid, 'soft-caught')):
                     tn = None if res._success else exc_of(res._value)[0]
